@@ -13,6 +13,7 @@ import MW.Lemmas.KvDelete
 import MW.Lemmas.KvIterW
 import MW.Lemmas.KvSnapshot
 import MW.Lemmas.KvHandlesRefine
+import MW.Lemmas.KvIterRyw
 namespace MW.Props.C11
 open MW MW.KV MW.Model.KV
 
@@ -361,5 +362,74 @@ example :
     (Spec.KV.runX {} ops).getD 5 .ok = .outOfContract ∧
     (Model.KV.runX {} ops).getLast? = some (.entries [([0x6b], [1])]) := by
   decide +kernel
+
+/-! ## 8. round 4 — the iterator inside a write transaction against the read-your-writes view -/
+
+/-- `iter_write_spec`: EXACTLY what a fresh iterator inside a write transaction yields when drained:
+    the limit NewIterator computes is never nil, and the yielded entries are `iterWEntries` = the
+    committed entries of `[start', limit')` followed by the batch's net puts with key in
+    `[start', limit')` – no committed entry is masked by a delete of the transaction, none is
+    replaced by the value the transaction put (the new value comes later, as a second entry). -/
+theorem iter_write_spec (tx : Tx) (hw : tx.readOnly = false) (b : Bucket) (st l : Bytes) :
+    ∃ lim, (b.iterBounds st l).2 = some lim ∧
+      runScript b (b.newIterator tx st l) [.all] =
+        (iterWEntries tx (b.iterBounds st l).1 lim).map (yielded b.pathLen) ++ [(false, none, none)] := by
+  obtain ⟨lim, hl⟩ := iterBounds_limit_some b st l
+  refine ⟨lim, hl, ?_⟩
+  have h := Model.KV.iter_write_shape tx hw b st l
+  simp only [hl] at h
+  rw [h, iterWEntries, List.map_append]
+
+/-- `iter_write_superset` (always): every entry of the read-your-writes view (the store the
+    transaction would commit) in the range has its key among the yielded entries – the iterator
+    never misses a key; in particular "is there any entry under this prefix" (ExistCreditFromTx)
+    has no false negative. -/
+theorem iter_write_superset {tx : Tx} (h : tx.Inv) (hw : tx.readOnly = false) (s' lim : Bytes) :
+    ∀ e ∈ tx.commit.range s' (some lim), ∃ e' ∈ iterWEntries tx s' lim, e'.1 = e.1 :=
+  iterW_superset h hw s' lim
+
+/-- `iter_write_ryw`: the sufficient condition under which the iterator DOES show the
+    read-your-writes view: if the transaction's batch has neither deleted nor (re-)put any COMMITTED
+    key of the range (`RangeUntouched`; keys it created itself may have been put, deleted, re-put at
+    will), the yielded entries, sorted by key, are exactly the entries a read-only iterator finds in
+    the store the transaction would commit – each once. -/
+theorem iter_write_ryw {tx : Tx} (h : tx.Inv) (hw : tx.readOnly = false) (b : Bucket) (st l lim : Bytes)
+    (hl : (b.iterBounds st l).2 = some lim) (hu : RangeUntouched tx (b.iterBounds st l).1 lim) :
+    sortBy (fun a b : Bytes × Bytes => blt a.1 b.1) (iterWEntries tx (b.iterBounds st l).1 lim) =
+      (b.newIterator tx.roView st l).rng := by
+  rw [iterW_ryw h hw _ _ hu]
+  show _ = tx.commit.range (b.iterBounds st l).1 (b.iterBounds st l).2
+  rw [hl]
+
+/-- two ways to meet the condition: nothing written yet (the wallet's removal step starts with such
+    an iteration), or nothing written to a key of the range (writes to other buckets only) -/
+theorem iter_write_ryw_conditions :
+    (∀ (tx : Tx) (s' lim : Bytes), tx.b = {} → RangeUntouched tx s' lim) ∧
+    (∀ (tx : Tx) (s' lim : Bytes),
+      (∀ k, ble s' k = true → blt k lim = true → tx.b.puts.get k = none ∧ tx.b.deletes.get k = none) →
+      RangeUntouched tx s' lim) :=
+  ⟨fun _ s' lim hb => rangeUntouched_of_empty hb s' lim, fun _ s' lim ho => rangeUntouched_of_outside s' lim ho⟩
+
+-- the condition holds in a non-trivial transaction: committed 1_a_a, 1_a_c; the transaction puts the new key 1_a_b,
+-- deletes it, puts it again, and writes to bucket 1_b
+example :
+    let tx : Tx := { readOnly := false, db := [([49, 95, 97, 95, 97], [1]), ([49, 95, 97, 95, 99], [3])],
+                     b := Batch.replay [.put [49, 95, 97, 95, 98] [2], .del [49, 95, 97, 95, 98],
+                                        .put [49, 95, 97, 95, 98] [4], .put [49, 95, 98, 95, 97] [9]] }
+    RangeUntouched tx [49, 95, 97, 95] [49, 95, 97, 96] ∧ tx.Inv := by
+  refine ⟨?_, ⟨by simp only [SMap.Sorted]; decide, Batch.inv_replay _⟩⟩
+  unfold RangeUntouched
+  decide
+
+/-- the condition is NECESSARY in both halves: after an OVERRIDE of a committed key the iterator
+    yields the key twice (old value first), after a DELETE it still yields the key -/
+example :
+    let b : Bucket := { name := [97], path := [49, 95, 97], depth := 1 }
+    let tx : Tx := { readOnly := false, db := [([49, 95, 97, 95, 97], [1])],
+                     b := Batch.replay [.put [49, 95, 97, 95, 97] [2]] }
+    runScript b (b.newIterator tx [] []) [.all] =
+      [(true, some [97], some [1]), (true, some [97], some [2]), (false, none, none)] ∧
+    b.get tx [97] = some [2] := by
+  decide
 
 end MW.Props.C11
